@@ -513,6 +513,15 @@ def r20_5(chk, fe):
             if blk is None:
                 raise AnalysisError(f"{FE}:quasirandom: unrecognised construction of the batch result: {str(b)[:120]}")
             okb = blk
+        elif ba and ba[0] == "sub" and ba[1].as_atom() and ba[1].as_atom()[0] == "call" and len(ba[2]) == 2 \
+                and ba[2][0].key() in ("numpy.newaxis", "None") and ba[2][1].key() == "(slice None None None)":
+            # a one-row sequence made from the single generator: right exactly when the path is taken for d1 == 1 only and the single generator
+            # gets the first (= only) seed of the window and the dimension
+            ca_ = ba[1].as_atom()
+            gens = {k: generator_of(ca_[1], k) for k in sorted(methods)}
+            one = any(pol and c.key() in (f"(eq 1 {d1})", f"(eq {d1} 1)") for c, pol in e.guards)
+            okb = all(g is not None and g.split(".")[-1] == f"quasirandom_{k}" for k, g in gens.items()) and one \
+                and len(ca_[2]) == 2 and ca_[2][0].key() == seed.key() and ca_[2][1].key() == d2.key()
         elif not (ba and ba[0] == "call"):
             raise AnalysisError(f"{FE}:quasirandom: unrecognised construction of the batch result: {str(b)[:120]}")
         extra = [c for c, pol in e.guards if c.key() != ck]
